@@ -84,6 +84,22 @@ VARIANTS = [('optimised', {'PYTHONOPTIMIZE': '1'}),
             ('warnings-as-errors', {'VMON_WARNINGS': 'error'})]
 
 
+def technique_of(mod):
+    """The deciding method as registered in MANIFEST.json and written into
+    every evidence file."""
+    t = getattr(mod, 'TECHNIQUE', 'runtime monitoring')
+    conf = getattr(mod, 'CONFIG', {})
+    names = [n for n, _ in VARIANTS if n not in conf.get('no_variants', ())]
+    if names:
+        t += ('; a rotating slice of the workload is repeated in a process '
+              'configured as: %s (same oracles)' % ', '.join(names))
+    if hasattr(mod, 'check_threads'):
+        t += ('; schedule stress on part of the shards: the outcome of each '
+              'call made from several threads at once must equal the '
+              'outcome of the same call made alone')
+    return t
+
+
 def variant_env(name):
     for n, env in VARIANTS:
         if n == name:
@@ -335,7 +351,7 @@ def main(argv=None):
         'notes': m['notes'],
         'repo_head': repo_head(),
         'python': sys.version.split()[0],
-        'technique': getattr(mod, 'TECHNIQUE', 'runtime monitoring'),
+        'technique': technique_of(mod),
     }
     coverage.update(extra)
     ev = {
